@@ -23,7 +23,7 @@ RULE = ('case = (target {return a generated value, return n bytes, raise excepti
 ASSUMPTIONS = ['NaN is excluded (== is the oracle)', 'hang guard 40 s for wait() without timeout']
 SHRINK = 'none'
 TIME_BUDGET = {'quick': 170, 'thorough': 1700}
-REQUIRED = {'quick': {'size<=64K': 12, 'size>208K': 12, 'falsy_result': 30, 'exception': 40, 'not_run': 20, 'route:create': 40, 'main_script': 3, 'timed_wait': 100},
+REQUIRED = {'quick': {'size<=64K': 12, 'size>208K': 12, 'falsy_result': 30, 'exception': 40, 'not_run': 20, 'route:create': 40, 'main_script': 3, 'timed_wait': 100, 'long_running_target': 3},
             'thorough': {'size<=64K': 150, 'size>208K': 60, 'falsy_result': 300, 'exception': 400, 'not_run': 200, 'main_script': 30}}
 GUARD = 40.0
 
@@ -122,9 +122,68 @@ def run_main_script(case, ctx, out):
                 out.viol('differs_from_direct_call', site, f'direct raised {direct[1:]}, worker: {k}')
 
 
+def exhaustive(tier, shard, nshards):
+    # long-running work (nothing travels on any pipe / connection for several seconds); one case per shard, all kinds at the same time
+    for i, secs in enumerate([5.6, 7.0, 5.6, 11.0] if tier == 'quick' else [5.6, 7.0, 11.0, 16.0, 31.0, 5.6, 7.0, 11.0]):
+        if i % nshards == shard:
+            yield {'target': 'slow', 'seconds': secs, 'value': i, 'route': 'create' if i % 2 else 'ctor', 'wait_mode': 'timed' if i % 3 == 0 else 'plain'}
+
+
+def run_slow(case, ctx, out):
+    from pyworkers.worker import Worker, WorkerType
+    out.label('long_running_target')
+    out.nontrivial = True
+    srv = IC.server(ctx)
+    expected = ('slow', case['value'])
+    ws = {}
+    try:
+        for kind, wt in (('thread', WorkerType.THREAD), ('process', WorkerType.PROCESS), ('remote', WorkerType.REMOTE)):
+            kw = {'args': [case['seconds'], case['value']]}
+            if kind == 'remote':
+                kw['host'] = srv.addr
+            try:
+                ws[kind] = bounded(Worker.create, 25, wt, vtargets.slow_ret, **kw) if case['route'] == 'create' else bounded(IC.KINDS[kind], 25, vtargets.slow_ret, **kw)
+            except BaseException as e:
+                out.viol('constructor_raised:' + type(e).__name__, f'{kind}:slow', str(e)[:150])
+        res = {}
+        for kind, w in ws.items():
+            site = f'{kind}:slow:{case["seconds"]}s'
+            try:
+                if case['wait_mode'] == 'timed':
+                    ok = False
+                    for _ in range(int(case['seconds'] + 25)):
+                        ok = bounded(w.wait, GUARD, 1)
+                        if ok:
+                            break
+                else:
+                    ok = bounded(w.wait, case['seconds'] + GUARD)
+            except Blocked:
+                out.viol('wait_never_returned', site, 'wait() still blocked long after the target must have returned')
+                continue
+            except BaseException as e:
+                out.viol('wait_raised:' + type(e).__name__, site, str(e)[:150])
+                continue
+            he, r, err = w.has_error, w.result, w.error
+            res[kind] = (he, repr(r), repr(err))
+            if ok is not True:
+                out.viol('wait_returned_false', site, repr(ok))
+            if he is not False or err is not None or not _same(r, expected):
+                out.viol('differs_from_direct_call', site, f'direct call returns {expected!r}; worker: has_error={he} result={r!r} error={err!r}')
+        out.obs = {'seconds': case['seconds'], 'kinds': res}
+    finally:
+        for w in ws.values():
+            try:
+                bounded(w.terminate, 10, timeout=1)
+            except BaseException:
+                pass
+    return out
+
+
 def run_case(case, ctx):
     from pyworkers.worker import Worker, WorkerType
     out = Out()
+    if case.get('target') == 'slow':
+        return run_slow(case, ctx, out)
     if case.get('main_script'):
         out.label('main_script')
         out.nontrivial = True
